@@ -37,11 +37,31 @@ def note_name(n, rng):
 
 # ----------------------------------------------------------------------------- generator of valid descriptions
 
+# every event name the kernel headers of this machine know (KEY_*, BTN_*, ABS_*, REL_*, SW_*, MSC_*, LED_* ...), plus a built-in list of
+# names newer than the evdev library's snapshot in case the header is absent: a name that is not in the table of ITS section must be rejected
+# whatever other table knows it
+KERNEL_NAMES = ["KEY_LINK_PHONE", "KEY_REFRESH_RATE_TOGGLE", "KEY_NEXT_ELEMENT", "KEY_PREVIOUS_ELEMENT", "KEY_AUTOPILOT_ENGAGE_TOGGLE",
+                "KEY_MARK_WAYPOINT", "KEY_SOS", "KEY_NAV_CHART", "KEY_FISHING_CHART", "KEY_SINGLE_RANGE_RADAR", "KEY_DUAL_RANGE_RADAR",
+                "KEY_RADAR_OVERLAY", "KEY_TRADITIONAL_SONAR", "KEY_CLEARVU_SONAR", "KEY_SIDEVU_SONAR", "KEY_NAV_INFO", "KEY_BRIGHTNESS_MENU",
+                "ABS_PROFILE", "KEY_MACRO1", "KEY_DICTATE", "KEY_CAMERA_ACCESS_ENABLE", "REL_WHEEL_HI_RES", "SW_MACHINE_COVER", "MSC_SCAN", "LED_CAPSL"]
+try:
+    import re as _re
+    for _m in _re.finditer(r"^#define\s+((?:KEY|BTN|ABS|REL|SW|MSC|LED|SND|REP)_[A-Z0-9_]+)\s", open("/usr/include/linux/input-event-codes.h").read(), _re.M):
+        if _m.group(1) not in KERNEL_NAMES:
+            KERNEL_NAMES.append(_m.group(1))
+except OSError:
+    pass
+FOREIGN_KEY_NAMES, FOREIGN_ABS_NAMES = [], []      # kernel names absent from the key / axis table of the implementation (filled by Gen)
+
+
 class Gen:
     def __init__(self, rng, tables):
         self.rng = rng
         self.keys = [(bytes(e["name"]), e["code"]) for e in tables["keys"]]
         self.abs = [(bytes(e["name"]), e["code"]) for e in tables["abs"]]
+        kn, an = {n for n, _ in self.keys}, {n for n, _ in self.abs}
+        FOREIGN_KEY_NAMES[:] = [n.encode() for n in KERNEL_NAMES if n.encode() not in kn]
+        FOREIGN_ABS_NAMES[:] = [n.encode() for n in KERNEL_NAMES if n.encode() not in an]
 
     def hexname(self, code):
         r = self.rng
@@ -467,7 +487,7 @@ def invalidations(d, rng):
         ]:
             site = r.choice(keysites)
             if vals is None:
-                bad = r.choice(BADKEYS)
+                bad = r.choice(BADKEYS) if (r.random() < 0.5 or not FOREIGN_KEY_NAMES) else r.choice(FOREIGN_KEY_NAMES)
                 mut(kind, lambda m: setkey(m, site, fk=lambda k: bad))
             else:
                 bad = r.choice(vals)
@@ -482,7 +502,7 @@ def invalidations(d, rng):
             k, a = m["mappings"][mi]["analog"][ai]["map"][ei]
             m["mappings"][mi]["analog"][ai]["map"][ei] = (name, a)
         site = r.choice(axsites)
-        bad = r.choice(BADABS)
+        bad = r.choice(BADABS) if (r.random() < 0.5 or not FOREIGN_ABS_NAMES) else r.choice(FOREIGN_ABS_NAMES)
         mut("axis-name-unknown", lambda m: setaxname(m, site, bad))
         site = r.choice(axsites)
         bad = r.choice([b"", b"CC", b"slider", b"cc ", b"keys", b"pitchbend", b"Key"])
@@ -508,7 +528,7 @@ def invalidations(d, rng):
                     mut("axis-%s-%s-invalid" % (ty.decode(), fld), lambda m: ax(m, site).update({fld: bad}))
     if dzsites:
         site = r.choice(dzsites)
-        bad = r.choice(BADABS)
+        bad = r.choice(BADABS) if (r.random() < 0.5 or not FOREIGN_ABS_NAMES) else r.choice(FOREIGN_ABS_NAMES)
 
         def setdz(m):
             mi, ai, ei = site
@@ -517,7 +537,7 @@ def invalidations(d, rng):
         mut("deadzone-name-unknown", setdz)
     if d["actions"]:
         i = r.randrange(len(d["actions"]))
-        bad = r.choice(BADKEYS)
+        bad = r.choice(BADKEYS) if (r.random() < 0.5 or not FOREIGN_KEY_NAMES) else r.choice(FOREIGN_KEY_NAMES)
         mut("action-key-unknown", lambda m: m["actions"].__setitem__(i, (bad, m["actions"][i][1])))
         i2 = r.randrange(len(d["actions"]))
         bada = r.choice([b"", b"bogus", b"Panic", b"octave", b"exit "])
@@ -530,7 +550,7 @@ def invalidations(d, rng):
     names = {m["name"] for m in d["mappings"]}
     badn = r.choice([n for n in [b"", b"nope", b"default", b"Default ", b"DEFAULT"] if n not in names])
     mut("default-mapping-missing", lambda m: m.update(defmap=badn))
-    bade = r.choice(BADKEYS)
+    bade = r.choice(BADKEYS) if (r.random() < 0.5 or not FOREIGN_KEY_NAMES) else r.choice(FOREIGN_KEY_NAMES)
     mut("exit-key-unknown", lambda m: m["exit"].insert(r.randrange(len(m["exit"]) + 1), bade))
     badv = r.choice([-1, 128, 255, 1000, -64])
     mut("velocity-range", lambda m: m.update(velocity=badv))
